@@ -352,8 +352,11 @@ def run_end_to_end(ctx, prop):
         tournament = rng.random() < 0.5
         seed = rng.randrange(2**31)
         sampler, estimator = fakes.ExactSampler(), fakes.ExactEstimator()
+        # every third solve starts from a hand-made population whose individuals are pairwise different but hash-equal in pairs
+        # (CPython: hash(-1.0) == hash(-2.0)): EVQEIndividual.__eq__ is hash equality, so dict/set based shortcuts would merge them
+        colliding = _ % 3 == 2
         inp = {"kind": "end_to_end", "nq": nq, "paulis": paulis, "coeffs": coeffs, "aux": aux_kind, "init": init is not None, "population": psize,
-               "max_gen": max_gen, "tournament": tournament, "seed": seed}
+               "max_gen": max_gen, "tournament": tournament, "seed": seed, "hash_colliding_population": colliding}
         with ThreadPoolExecutor(max_workers=rng.choice([1, 3])) as ex:
             conf = EVQEMinimumEigensolverConfiguration(
                 configured_estimator=ConfiguredEstimatorV2(estimator=estimator, precision=None), configured_sampler=ConfiguredSamplerV2(sampler=sampler, shots=SHOTS),
@@ -364,6 +367,17 @@ def run_end_to_end(ctx, prop):
                 use_tournament_selection=tournament, tournament_size=rng.randint(1, psize) if tournament else None, parallel_executor=ex,
                 mutually_exclusive_primitives=rng.random() < 0.5)
             solver = EVQEMinimumEigensolver(conf)
+            if colliding:
+                base = EVQEIndividual.random_individual(nq, 1, True, seed)
+                vals = list(base.parameter_values)
+                pop0 = []
+                for k in range(psize):
+                    v = list(vals)
+                    v[0] = [-1.0, -2.0][k % 2]
+                    if k >= 2:
+                        v[-1] = float(k)
+                    pop0.append(EVQEIndividual(base.n_qubits, base.layers, tuple(v)))
+                solver.configuration.population_initializer = lambda n, pop0=pop0: EVQEPopulation(tuple(pop0), None, None, None)
             try:
                 res = solver.compute_minimum_eigenvalue_with_initial_state(op, aux, init)
             except Exception as e:  # noqa: BLE001
